@@ -4,7 +4,7 @@
    failure, a refused thread start. *)
 From Coq Require Import Lia.
 From Coq Require Import Permutation.
-From Torf Require Import Base Pipeline PipelineProofs FlowProofs ThreadProofs DeadlockProofs ConservationProofs PipeExplore PipeExploreProofs PipeConfigs.
+From Torf Require Import Base Pipeline PipelineProofs FlowProofs ThreadProofs DeadlockProofs ConservationProofs ReaderDoneProofs DrainProofs VerifyTrueProofs VerifyFalseProofs CompleteProofs PipeExplore PipeExploreProofs PipeConfigs.
 Open Scope Z_scope.
 
 (* the callback cancels from the second piece on (3 pieces): under every schedule the call returns
@@ -77,6 +77,24 @@ Theorem C04_no_piece_lost_unbounded : forall c s,
   Permutation (indices s) (map Z.of_nat (seq 0 (Z.to_nat (s_ridx s)))).
 Proof. exact no_piece_lost. Qed.
 Print Assumptions C04_no_piece_lost_unbounded.
+
+(* UNBOUNDED, "False only for the right reason": a hashing run over readable content returns False only if it was
+   told to stop (the stop flag of the reader was set: a callback cancelled) -- never because a schedule, a slow
+   reader, the out-of-memory handling or an idle hasher lost a piece. *)
+Theorem C04_generate_false_means_stopped : forall c s hs,
+  (1 <= cf_hashers c)%nat -> reach c s -> cf_verify c = None ->
+  yielded (cf_items c) = map RPiece hs -> cf_total c = zlen hs ->
+  s_result s = Some ResFalse -> s_stop s = true.
+Proof. exact generate_false_means_stopped. Qed.
+Print Assumptions C04_generate_false_means_stopped.
+
+(* non-vacuity: 40 pieces, one hasher, a callback that cancels at its first call: False, and the stop flag is set *)
+Example C04_false_when_stopped_example :
+  let hs := map Z.of_nat (seq 1 40) in
+  let cfg := mk (map RPiece hs) 40 1 (CbCancelFrom 1) [] None in
+  let s := auto_run 3000 cfg (init cfg) in
+  reach cfg s /\ s_result s = Some ResFalse /\ s_stop s = true.
+Proof. split; [apply auto_run_reach; constructor|vm_compute; split; reflexivity]. Qed.
 
 (* refuted on the faithful model (known findings): if the start of the janitor or of the first hasher
    is refused, the call raises RuntimeError while the reader (and hashers) keep running *)
